@@ -94,6 +94,8 @@ type observation struct {
 	ambiguous string
 	// skipped, if not empty, says why the input was not sent on this path.
 	skipped string
+	// elapsed is how long the exchange took.
+	elapsed time.Duration
 }
 
 type session interface {
@@ -1000,14 +1002,23 @@ func (e *env) evalOne(p *pathDef, s session, in *input) {
 	}
 
 	exp := expect(p, in)
-	wantAnswer := exp.kind == expRef || exp.kind == expRcode || exp.kind == expServfail
+	wantAnswer := exp.kind == expRef || exp.kind == expRcode || exp.kind == expServfail || exp.kind == expOne
 
 	if e.inflight != nil {
 		e.inflight.enter(p.name)
 	}
+	began := time.Now()
 	o := s.exchange(in, wantAnswer)
+	o.elapsed = time.Since(began)
 	if e.inflight != nil {
 		e.inflight.leave(p.name)
+	}
+
+	if p.prod && o.elapsed > prodCtxTimeout/2 && o.ambiguous == "" && o.skipped == "" && o.res.Outcome == tbench.Answered {
+		// The servers of the production benches give a request one second; an
+		// exchange that took half of that may have been answered SERVFAIL for
+		// the harness' own slowness.
+		o.ambiguous = fmt.Sprintf("exchange took %s", o.elapsed)
 	}
 
 	e.account(p, in, exp, o)
